@@ -33,6 +33,44 @@ def run(ck, progs, tier):
     for cfgname, prog in progs.items():
         ck.set_config(prog)
         run_one(ck, prog)
+        check_print_loop(ck, prog)
+
+
+# panic sites of try_print that hold by a loop invariant the discharge rules do not derive (read, one line of reason each)
+PRINT_REVIEWED = {
+    "call:index(*as_bytes(*p2),RangeFrom::RangeFrom(var:flushed))": "flushed is 0 on entry and the loop returns as soon as flushed >= len, so flushed < len at every slice",
+    "overflow_add(var:flushed,branch(map_err(write(p1,**index(*as_bytes(('ref', False, ('deref', ('param', 2, 'msg')))),RangeFrom::RangeFrom(var:flushed))),closure::tiny_std::unix::print::try_print::{closure#0}()))@Continue.0)":
+        "flushed < len <= isize::MAX and a write count is at most isize::MAX: the sum fits in usize",
+}
+
+
+def check_print_loop(ck, prog):
+    """C15.6 the write loop behind print!/eprint!/dbg! (try_print) has no reachable panic: a short write may end inside a multi-byte
+    character, so the remainder is re-sliced as BYTES (a `&str` re-slice at the kernel's count panics on a non-boundary) - the helper
+    must deliver the rest or return the error, not unwind."""
+    from ..engine.cfg import span_str
+    fn = prog.fns.get("tiny_std::unix::print::try_print")
+    if fn is None:
+        if ck.config == "C":
+            return
+        ck.anchor("C15.6", "try_print", fn)
+        return
+    ctx = prog.ctx(fn)
+    n = 0
+    import re as _re
+    blank = lambda k: _re.sub(r"var:[A-Za-z_0-9]+", "var:_", k)  # noqa: E731
+    for st in panics.sites(ctx):
+        n += 1
+        ok, why = panics.discharge(ctx, st)
+        rk = next((k_ for k_ in PRINT_REVIEWED if blank(k_) == blank(st["key"])), None)
+        if not ok and rk is not None:
+            ok, why = True, "reviewed: " + PRINT_REVIEWED[rk]
+        ck.ob("C15.6", f"try_print|{st['key']}", ok, fn=fn["path"], site=span_str(st["sp"]), detail=("reachable panic: " if not ok else "") + why)
+    # string slicing by a run-time offset is a panic site of its own kind (char boundary), whatever the bounds
+    strs = [(bb, t.get("callee")) for bb, t in ctx.cfg.calls(lambda t: (t.get("resolved") or t.get("callee") or "").endswith(("for str>::index", "for str>::index_mut", "str::<impl str>::split_at", "str::<impl str>::split_at_mut")))]
+    ck.ob("C15.6", "try_print|remainder-resliced-as-bytes", not strs, fn=fn["path"], site=ctx.site(strs[0][0]) if strs else None,
+          detail="the unwritten remainder is taken by slicing a `str` at the count the kernel returned: a short write that ends inside a multi-byte character panics (slice the bytes instead)")
+    ck.floor("C15.6", "potential panic sites in try_print", n, 1)
 
 
 def err_edges_of_call(ctx, bb):
@@ -199,6 +237,17 @@ def run_one(ck, prog):
         without = cfg.reachable_from(0, avoid_edges=zero_edges)
         ck.ob("C15.2", "ok-only-after-a-read-of-zero", bool(zero_edges) and bool(ok_blocks) and not any(b in without for b in ok_blocks), fn=fn["path"],
               detail="read_to_end may report success only after a read delivered 0 bytes (filled_len() == 0 or the probe's Ok(0)); a read that merely left room is not the end of the data")
+        # the side read into the probe array happens only with the vector FULL (len == capacity): the `initialized` count carried into the
+        # next round describes the spare capacity as the last ReadBuf left it; a probe that lands in place while room is left shrinks the
+        # spare region under that count (the next assume_init then exceeds the slice: a panic instead of data or an error)
+        probes = [bb for bb, t in cfg.calls(lambda t: (t.get("callee") or "").endswith("Read::read"))
+                  if not mentions(ctx.args(bb)[1], ctx.prov, lambda z: z[0] == "param" and z[1] == 2)]
+        for pb in probes:
+            fs = panics.dominating_facts(ctx, pb)
+            full = any(f[0] == "cmp" and f[1] == "Eq" and {True} == {("len(" in show(x) or "capacity(" in show(x)) for x in (f[2], f[3])} and
+                       ("len(" in show(f[2])) != ("len(" in show(f[3])) for f in fs)
+            ck.ob("C15.2", "probe-read-only-on-a-full-buffer", full, fn=fn["path"], site=ctx.site(pb),
+                  detail="the read into the probe array is made although `buf.len() == buf.capacity()` was not established: the carried `initialized` count no longer describes the spare capacity afterwards")
         # the probe appends exactly probe[..n]
         ext = [bb for bb, t in cfg.calls(lambda t: (t.get("callee") or "").endswith("extend_from_slice"))]
         for bb in ext:
